@@ -560,8 +560,29 @@ fn probe_main<S: yash_env::system::GetPid>(
         st = vals[1].parse().unwrap_or(0);
         vals.drain(0..2);
     }
+    // a command must find its standard input in blocking mode (the shell reads its script through
+    // a non-blocking descriptor only while it reads): observed in the virtual kernel
+    let pid = pid_of(env);
+    let nonblocking = VSTATE.with(|s| {
+        s.borrow().as_ref().is_some_and(|state| {
+            state.try_borrow().ok().is_some_and(|st| {
+                st.processes
+                    .get(&Pid(pid))
+                    .and_then(|p| p.get_fd(Fd::STDIN))
+                    .is_some_and(|b| b.open_file_description.try_borrow().map(|o| o.is_nonblocking()).unwrap_or(false))
+            })
+        })
+    });
+    if nonblocking {
+        push_event(Event {
+            pid,
+            kind: "stdin-nonblocking",
+            args: vals.clone(),
+            status: 0,
+        });
+    }
     push_event(Event {
-        pid: pid_of(env),
+        pid,
         kind: "probe",
         args: vals,
         status: status_of(env),
